@@ -4,6 +4,7 @@ package c23
 import (
 	"encoding/json"
 	"fmt"
+	"strings"
 
 	"verifharness/hk"
 	"verifharness/sqlsched"
@@ -30,6 +31,8 @@ const (
 	KReadBranch    // SELECT .. FROM t AS OF 'main'
 	KReadRevDb     // SELECT .. FROM `<db>/main`.t
 	KReadStaged    // SELECT .. FROM t AS OF 'STAGED'
+	KReadHeadUC    // SELECT .. FROM <DB IN UPPER CASE>.t AS OF 'HEAD'
+	KReadBranchUC  // SELECT .. FROM <Db In Mixed Case>.t AS OF 'main'
 )
 
 type Case struct {
@@ -89,6 +92,16 @@ func Render(st []int) string {
 	return "SELECT 'bad kind'"
 }
 
+func mixedCase(s string) string {
+	b := []byte(strings.ToLower(s))
+	for i := 0; i < len(b); i += 2 {
+		if b[i] >= 'a' && b[i] <= 'z' {
+			b[i] -= 32
+		}
+	}
+	return string(b)
+}
+
 func Run(raw json.RawMessage) (any, error) {
 	var c Case
 	if err := json.Unmarshal(raw, &c); err != nil {
@@ -113,8 +126,13 @@ func Run(raw json.RawMessage) (any, error) {
 	}
 	for _, st := range c.Steps {
 		q := Render(st)
-		if st[1] == KReadRevDb {
+		switch st[1] {
+		case KReadRevDb:
 			q = "SELECT pk, a, b FROM `" + w.Env.DBName + "/main`.t"
+		case KReadHeadUC: // database names are case-insensitive: the same read as KReadHead
+			q = "SELECT pk, a, b FROM `" + strings.ToUpper(w.Env.DBName) + "`.t AS OF 'HEAD'"
+		case KReadBranchUC:
+			q = "SELECT pk, a, b FROM `" + mixedCase(w.Env.DBName) + "`.t AS OF 'main'"
 		}
 		so := sqlsched.Exec(w.Sess[st[0]], q)
 		if st[1] >= KDoltCommit && st[1] <= KDoltCommitAll {
